@@ -8,8 +8,10 @@
    function-level frame emitted by the pass establishes) produces the same trace and decisions; it
    completes normally exactly when the original completes normally or returns, and do_return is True
    at the end exactly when the original returned; a run that ends in an exception ends in the same
-   exception at the same point with do_return False.  raise, try/except/else/finally (handlers included,
-   dispatch by decision) and with are covered; loops without else clause (the pipeline rejects loop-else), finally clauses without jumps.
+   exception at the same point with do_return False.  raise, return values and user statements whose
+   evaluation raises (odd labels), try/except/else/finally (handlers included, bare `except:` first or
+   dispatch by decision) and with are covered -- in particular the try/except wrapper the pass puts around
+   every lowered return (`except: do_return = False; raise`) is what makes the raising-value case hold; loops without else clause (the pipeline rejects loop-else), finally clauses without jumps.
    Models = Passes.crr_block, Passes.ret_block, tied to return_statements.py by structural comparison. *)
 From Coq Require Import List Arith Bool.
 Import ListNotations.
@@ -30,30 +32,43 @@ Proof. intros b s d tr o s' d' R. exact (proj1 (proj2 crr_correct_all _ _ _ _ _ 
 
 (* non-vacuity: if t1: (try: if t2: return r3; a4  else: a5  finally: a6)  a7; return r8 *)
 Definition ex_r : block :=
-  BCons (SIf (CUser 1) (BCons (STry (BCons (SIf (CUser 2) (BCons (SReturn 3) BNil) BNil) (BCons (SAtom 4) BNil)) HNil
-                                   (BCons (SAtom 5) BNil) (BCons (SAtom 6) BNil)) BNil) BNil)
-        (BCons (SAtom 7) (BCons (SReturn 8) BNil)).
+  BCons (SIf (CUser 1) (BCons (STry (BCons (SIf (CUser 2) (BCons (SReturn 6) BNil) BNil) (BCons (SAtom 8) BNil)) HNil
+                                   (BCons (SAtom 10) BNil) (BCons (SAtom 12) BNil)) BNil) BNil)
+        (BCons (SAtom 14) (BCons (SReturn 16) BNil)).
 Example ex_r_clean : rclean_block (fst (crr_block ex_r)) = true.
 Proof. vm_compute; reflexivity. Qed.
-Example ex_r_run : exec_block 40 ex_r (fun _ => false) [1; 1] = ([1; 2; 3; 6], ORet, (fun _ => false), []).
+Example ex_r_run : exec_block 40 ex_r (fun _ => false) [1; 1] = ([1; 2; 6; 12], ORet, (fun _ => false), []).
 Proof. vm_compute; reflexivity. Qed.
 Example ex_r_lowered_run :
-  let '(tr, o, s, d) := exec_block 60 (fst (return_pass ex_r)) (fun _ => false) [1; 1] in (tr, o, s rflag, d) = ([1; 2; 3; 6], ONormal, true, []).
+  let '(tr, o, s, d) := exec_block 60 (fst (return_pass ex_r)) (fun _ => false) [1; 1] in (tr, o, s rflag, d) = ([1; 2; 6; 12], ONormal, true, []).
 Proof. vm_compute; reflexivity. Qed.
 (* non-vacuity with exceptions: try: raise r1  except: (if t2: return r3); a4   ;  a5 *)
 Definition ex_x : block :=
-  BCons (STry (BCons (SRaise 1) BNil) (HCons (BCons (SIf (CUser 2) (BCons (SReturn 3) BNil) BNil) (BCons (SAtom 4) BNil)) HNil) BNil BNil)
-        (BCons (SAtom 5) BNil).
+  BCons (STry (BCons (SRaise 1) BNil) (HCons false (BCons (SIf (CUser 2) (BCons (SReturn 6) BNil) BNil) (BCons (SAtom 8) BNil)) HNil) BNil BNil)
+        (BCons (SAtom 10) BNil).
 Example ex_x_clean : rclean_block (fst (crr_block ex_x)) = true.
 Proof. vm_compute; reflexivity. Qed.
-Example ex_x_run : exec_block 40 ex_x (fun _ => false) [0; 1] = ([1; 2; 3], ORet, (fun _ => false), []).
+Example ex_x_run : exec_block 40 ex_x (fun _ => false) [0; 1] = ([1; 2; 6], ORet, (fun _ => false), []).
 Proof. vm_compute; reflexivity. Qed.
 Example ex_x_lowered_run :
-  let '(tr, o, s, d) := exec_block 60 (fst (return_pass ex_x)) (fun _ => false) [0; 1] in (tr, o, s rflag, d) = ([1; 2; 3], ONormal, true, []).
+  let '(tr, o, s, d) := exec_block 60 (fst (return_pass ex_x)) (fun _ => false) [0; 1] in (tr, o, s rflag, d) = ([1; 2; 6], ONormal, true, []).
 Proof. vm_compute; reflexivity. Qed.
 (* ... and an exception no handler takes (decision 1 = past the only handler) leaves the lowered function too *)
 Example ex_x_uncaught :
   let '(tr, o, s, d) := exec_block 60 (fst (return_pass ex_x)) (fun _ => false) [1] in (tr, o, s rflag, d) = ([1], ORaise, false, []).
 Proof. vm_compute; reflexivity. Qed.
+(* a return value whose evaluation raises (odd label, decision 1): try: return r7  except: a8 ;  a10 -- the wrapper the
+   pass puts around the lowered return resets do_return, so the statements after the try still run *)
+Definition ex_v : block :=
+  BCons (STry (BCons (SReturn 7) BNil) (HCons true (BCons (SAtom 8) BNil) HNil) BNil BNil) (BCons (SAtom 10) BNil).
+Example ex_v_clean : rclean_block (fst (crr_block ex_v)) = true.
+Proof. vm_compute; reflexivity. Qed.
+Example ex_v_run : exec_block 40 ex_v (fun _ => false) [1] = ([7; 8; 10], ONormal, (fun _ => false), [])
+                /\ exec_block 40 ex_v (fun _ => false) [0] = ([7], ORet, (fun _ => false), []).
+Proof. vm_compute; split; reflexivity. Qed.
+Example ex_v_lowered_run :
+  (let '(tr, o, s, d) := exec_block 60 (fst (return_pass ex_v)) (fun _ => false) [1] in (tr, o, s rflag, d)) = ([7; 8; 10], ONormal, false, [])
+  /\ (let '(tr, o, s, d) := exec_block 60 (fst (return_pass ex_v)) (fun _ => false) [0] in (tr, o, s rflag, d)) = ([7], ONormal, true, []).
+Proof. vm_compute; split; reflexivity. Qed.
 Print Assumptions return_lowering_correct.
 Print Assumptions conditional_return_rewriter_correct.
